@@ -34,7 +34,7 @@ func isLenOf(v ssa.Value, owner string) bool {
 			return false
 		}
 		b, isB := call.Call.Value.(*ssa.Builtin)
-		return isB && b.Name() == "len" && ssax.AnyIn(ssax.Backward(call.Call.Args[0]), ssax.LoadOfField(owner))
+		return isB && b.Name() == "len" && ssax.AnyIn(ssax.Backward(rawArgs(call)[0]), ssax.LoadOfField(owner))
 	})
 }
 
@@ -238,7 +238,7 @@ func c18(c *core.Ctx) {
 					return
 				}
 				b, isB := call.Call.Value.(*ssa.Builtin)
-				if !isB || b.Name() != "len" || call.Call.Args[0] != ssa.Value(paramOf(wr, 1)) {
+				if !isB || b.Name() != "len" || rawArgs(call)[0] != ssa.Value(paramOf(wr, 1)) {
 					okLen = false
 				}
 			})
